@@ -63,6 +63,13 @@ func (s *ScanMethod) ProcessPacketData(data []byte, _ *gopacket.CaptureInfo) err
 	if len(s.rcvDecoded) != 2 {
 		return nil
 	}
+	// only Ethernet/IPv4 ARP packets
+	// (the hardware type is checked on the raw field: layers.LinkType keeps only its low byte)
+	if hwType := s.rcvARP.Contents[0:2]; hwType[0] != 0 || hwType[1] != byte(layers.LinkTypeEthernet) ||
+		s.rcvARP.Protocol != layers.EthernetTypeIPv4 ||
+		s.rcvARP.HwAddressSize != 6 || s.rcvARP.ProtAddressSize != 4 {
+		return nil
+	}
 
 	copy(s.rcvMacPrefix[:], s.rcvARP.SourceHwAddress[:3])
 	hwVendor := macs.ValidMACPrefixMap[s.rcvMacPrefix]
